@@ -1,0 +1,46 @@
+// Verification hook (build tag "verif" only): lets an external harness drive the
+// sampling step and the average with an injected clock instead of the 10s wall-clock
+// timer. It adds no behaviour to normal builds.
+
+//go:build verif
+// +build verif
+
+package kxps
+
+import (
+	"time"
+)
+
+// VerifMeter gives access to the sampler of a meter created by NewVerifKbps/NewVerifKrps.
+type VerifMeter struct {
+	imp *kxps
+}
+
+// NewVerifKbps creates a bitrate meter that is marked started but has no timer goroutine.
+func NewVerifKbps(source KbpsSource) (Kbps, *VerifMeter) {
+	v := NewKbps(nil, source).(*kbps)
+	v.imp.started = true
+	return v, &VerifMeter{imp: v.imp}
+}
+
+// NewVerifKrps creates a request-rate meter that is marked started but has no timer goroutine.
+func NewVerifKrps(source KrpsSource) (Krps, *VerifMeter) {
+	v := NewKrps(nil, source).(*krps)
+	v.imp.started = true
+	return v, &VerifMeter{imp: v.imp}
+}
+
+// Sample runs one sampling step at the given instant (what the timer goroutine does with time.Now()).
+func (m *VerifMeter) Sample(now time.Time) error {
+	m.imp.lock.Lock()
+	defer m.imp.lock.Unlock()
+	if m.imp.closed {
+		return kxpsClosed
+	}
+	return m.imp.doSample(now)
+}
+
+// Average evaluates the average at the given instant (what Average() does with time.Now()).
+func (m *VerifMeter) Average(now time.Time) float64 {
+	return m.imp.sampleAverage(now)
+}
